@@ -187,6 +187,26 @@ def scheme_big_t5(rng):
     return [[0., b, rng.choice([t, b]), b3, b3 + rng.choice([0.0, 1.0]), b5], [t, t, 0., t34, t34, t5]]
 
 
+def scheme_unranked_pairs(rng):
+    """S15: the two penalties for a pair of elements that are both unranked differ and are of the size of the other
+    penalties (B[5] = 0 < T[5], B[5] > T[5] = 0, or both non-zero and different); the rest is a usual scheme with a tie
+    cost of 1/2 or 1 times the inversion cost"""
+    b = rng.choice([1.0, 1.0, 2.0])
+    t = rng.choice([0.5, 1.0]) * b
+    kind = rng.choice(["t5", "t5", "b5", "both"])
+    if kind == "t5":
+        b5, t5 = 0.0, rng.choice([0.5, 1.0, 1.0, 2.0]) * b
+    elif kind == "b5":
+        b5, t5 = rng.choice([0.5, 1.0, 2.0]) * b, 0.0
+    else:
+        b5, t5 = rng.choice([(0.5, 1.0), (1.0, 0.5), (1.0, 2.0), (0.25, 1.0)])
+        b5, t5 = b5 * b, t5 * b
+    b3 = rng.choice([0.0, 0.0, 0.5 * b])
+    b4 = b3 + rng.choice([0.0, b, b])
+    t34 = rng.choice([0.0, t, t, b])
+    return [[0., b, rng.choice([t, b, b]), b3, b4, b5], [t, t, 0., t34, t34, t5]]
+
+
 def scheme_magnitudes(rng):
     """S14: penalties of unusual magnitude -- a preset scaled by 2^-30 (every cost difference far below 1e-8), or an
     inversion cost 2^20 times the other penalties; all exactly representable"""
@@ -217,7 +237,7 @@ SCHEME_CLASSES = {
     "S1": scheme_preset, "S2": scheme_preset_multiple, "S3": scheme_random, "S4": scheme_perturbed,
     "S5": scheme_lookalike, "S6": scheme_degenerate, "S7": scheme_decimal, "S8": scheme_threshold,
     "S9": scheme_free_ties, "S10": scheme_near_tie, "S11": scheme_ratio_band, "S12": scheme_extreme_ratio,
-    "S13": scheme_big_t5, "S14": scheme_magnitudes,
+    "S13": scheme_big_t5, "S14": scheme_magnitudes, "S15": scheme_unranked_pairs,
 }
 
 
@@ -330,7 +350,69 @@ def perturb(rng, ranking, nb_moves):
     return r
 
 
+def block_dataset(rng, n, sizes=(1, 2, 3, 3, 4, 4, 5), mmax=7):
+    """(dataset, blocks): n elements (beyond the reach of the subset DP) in ordered blocks.  Every ranking lists the blocks
+    it contains in block order, so that 'earlier block before later block' is a cheapest placement under most schemes
+    (ref.BlockOptimum checks it on the cost table; the generator only aims at it).  Inside a block: rotations of one order
+    (cyclic majorities), independent rankings with ties, or perturbations of one order.  A first short ranking with one
+    member of each block makes the library's element ids interleave across blocks (ids >= 10 inside every component).
+    A minority of the voters ties or swaps two elements across a block border."""
+    kind = rng.choice(["int", "int", "bigint", "str", "intlike", "negint", "digits_plus_word", "mixed_str"])
+    _, names = element_names(rng, n, kind)
+    blocks, at = [], 0
+    while at < n:
+        sz = min(n - at, rng.choice(sizes))
+        blocks.append(names[at:at + sz])
+        at += sz
+    style = [rng.choice(["rot", "rot", "free", "near"]) for _ in blocks]
+    bases = [ranking_over(rng, b, rng.choice([0.0, 0.0, 0.3])) for b in blocks]
+    m = rng.randint(3, max(3, mmax))
+    skip = rng.choice([0.0, 0.0, 0.15, 0.3])
+    noise = rng.choice([0.0, 0.0, 0.1])
+    ds = []
+    if rng.random() < 0.7:
+        ds.append([[rng.choice(b)] for b in blocks])
+    for i in range(m):
+        r = []
+        borders = []
+        for bi, blk in enumerate(blocks):
+            if len(blocks) > 1 and rng.random() < skip:
+                continue
+            if style[bi] == "rot":
+                kk = i % len(blk)
+                sub = [[e] for e in blk[kk:] + blk[:kk]]
+                if len(sub) > 1 and rng.random() < 0.15:
+                    j = rng.randrange(len(sub) - 1)
+                    sub[j] = sub[j] + sub.pop(j + 1)
+            elif style[bi] == "free":
+                sub = ranking_over(rng, blk, rng.choice([0.0, 0.3, 0.6]))
+            else:
+                sub = perturb(rng, bases[bi], rng.choice([0, 1, 1, 2]))
+            if r:
+                borders.append(len(r))
+            r.extend(sub)
+        if borders and rng.random() < noise:
+            j = rng.choice(borders)
+            if rng.random() < 0.5:
+                r[j - 1], r[j] = r[j], r[j - 1]
+            else:
+                r[j - 1] = r[j - 1] + r.pop(j)
+        ds.append(r)
+    seen = set(universe_of(ds))
+    missing = [e for e in names if e not in seen]
+    if missing:
+        # every element must appear: one more voter ranks the blocks of the missing elements, in block order
+        ds.append([[e for e in b if e in missing] for b in blocks if any(e in missing for e in b)])
+    return ds, blocks
+
+
+def universe_of(ds):
+    return [e for r in ds for b in r for e in b]
+
+
 OUTLIER = {"p": 0.05, "n_only_up_to": None}
+# tuned on a seeded change (C06e) so that about 8 % of the (D23, B[5] = 0 < T[5]) cases sit on the critical side
+D23 = {"sizes": [2, 3, 3, 4], "m": (5, 9), "p_tie": [0.2, 0.3, 0.35], "p_miss": [0.2, 0.3, 0.5]}
 
 
 def dataset(rng, cls=None, n=None, m=None, names=None, nmax=7, mmax=6, classes=None, outlier=None):
@@ -511,6 +593,38 @@ def _dataset(rng, cls, n, m, names, nmax, mmax):
             if not any(a in bk for r in out for bk in r):
                 out.append([[a, b]])
             ds = out
+        return ds
+    if cls == "D23":     # ordered blocks of 2-4 elements; for each block a voter either ranks it (a rotation of one order),
+        # ties it entirely, or misses it entirely: whether the block is best tied or ordered then hinges on how many
+        # voters miss it and on what the scheme charges for a pair of unranked elements (B[5] for ordering it, T[5] for
+        # tying it) -- sub-problems that forget those voters, or price them wrongly, choose the wrong side
+        order = list(names)
+        rng.shuffle(order)
+        blocks, at = [], 0
+        while at < len(order):
+            sz = min(len(order) - at, rng.choice(D23["sizes"]))
+            blocks.append(order[at:at + sz])
+            at += sz
+        mm = rng.randint(D23["m"][0], max(D23["m"][1], mmax + 2))
+        p_tie = rng.choice(D23["p_tie"])
+        p_miss = rng.choice(D23["p_miss"])
+        ds = []
+        for i in range(mm):
+            r = []
+            for blk in blocks:
+                u = rng.random()
+                if u < p_miss and len(blocks) > 1:
+                    continue
+                if u < p_miss + p_tie:
+                    r.append(list(blk))
+                else:
+                    kk = rng.randrange(len(blk)) if rng.random() < 0.3 else i % len(blk)
+                    r.extend([[e] for e in blk[kk:] + blk[:kk]])
+            ds.append(r)
+        seen = set(universe_of(ds))
+        for blk in blocks:
+            if not set(blk) <= seen:
+                ds.append([[e] for e in blk])
         return ds
     if cls == "D20":     # blocks with cyclic majorities whose members FIRST appear together in one tied bucket, over int
         # labels that collide in small hash tables: the iteration order of a bucket differs from the order of its
